@@ -486,12 +486,37 @@ def save_and_check(c, dirname, ex):
     return be, entries, rows_per_entry
 
 
+def leave_debris(dirname, kind):
+    """What an earlier writer of the same key that died without closing (or an older complete copy) leaves behind;
+    the save that follows must produce data whose metadata agrees with the files regardless.
+    1: <key>_temp with an orphan chunk file; 2: <key>_temp with per-chunk metadata files of an inlined (forked) saver
+    and a half-written metadata file; 3: an old complete directory under the final name (overwritten by design)."""
+    if not kind:
+        return
+    prefix = f"{DATA_TYPE}-{LINEAGE_HASH}"
+    d = dirname + "_temp" if kind in (1, 2) else dirname
+    os.makedirs(d)
+    with open(os.path.join(d, f"{prefix}-000007"), "wb") as f:
+        f.write(b"debris of a writer that died")
+    if kind == 2:
+        with open(os.path.join(d, f"metadata_{prefix}-000007.json"), "w") as f:
+            json.dump(dict(chunk_i=7, n=3, start=10 ** 15, end=10 ** 15 + 5, run_id=RUN_ID, nbytes=72,
+                           filename=f"{prefix}-000007", filesize=28, subruns=None), f)
+    with open(os.path.join(d, f"{prefix}-metadata.json"), "w") as f:
+        f.write('{"chunks": [{"chunk_i": 7' if kind in (1, 2) else json.dumps(dict(chunks=[], writing_ended=1.0)))
+
+
+def st_stale():
+    return st_case().map(lambda d: dict(d, stale=1 + d["seed"] % 3))
+
+
 def run_roundtrip(d):
     c = Case(d)
     root = tempfile.mkdtemp(prefix="c03-", dir=scratch())
     dirname = os.path.join(root, f"{RUN_ID}-{DATA_TYPE}-{LINEAGE_HASH}")
     ex = ThreadPoolExecutor(max_workers=d["workers"]) if (d["pool_s"] or d["pool_l"]) else None
     try:
+        leave_debris(dirname, d.get("stale", 0))
         be, entries, rows_per_entry = save_and_check(c, dirname, ex)
         try:
             out = resolve(list(be.loader(dirname, executor=ex if d["pool_l"] else None)))
@@ -563,6 +588,7 @@ SUBCHECKS = [
     # no required_classes: classes are only recorded for passing cases, so a defect that breaks every case of a
     # class (e.g. every rechunked save) would be masked as a generator problem
     SubCheck("roundtrip", run_roundtrip, strategy=st_roundtrip, quick=5000, thorough=120000),
+    SubCheck("stale_debris", run_roundtrip, strategy=st_stale, quick=1500, thorough=30000),
     SubCheck("grid", run_roundtrip, enumerate=enum_grid),
     SubCheck("load_rechunk", run_load_rechunk, strategy=st_load_rechunk, quick=1500, thorough=24000),
 ]
